@@ -4,6 +4,7 @@
    assumptions; statistical tests in the thorough tier support them.  Proved: for every accepted draw the pair is valid; for a fixed g1 the map g2 -> partner is exactly
    two-to-one onto the anticommuting strings (so uniform raw bits give a uniform partner); EXACT uniformity of random_clifford on the symplectic groups for N = 1 (6 matrices,
    12 draws) and N = 2 (720 = |Sp(4,2)| matrices, 2880 draws) by complete enumeration; the N = 2 sampler entangles. *)
+From PC Require Import Model.Tableau Model.Spec Proofs.RandomPauliFacts.
 From PC Require Import Model.Base Model.Pauli Model.CMap Model.Diag Model.Random Proofs.RandomFacts Proofs.UniformFacts Proofs.DiagFacts Proofs.RandomCliffordFacts Proofs.RandomBijectionFacts.
 
 Theorem C16_pair_anticommutes : forall g1 g2, length g2 = length g1 -> is_id_str g1 = false -> acq g1 (snd (fix_pair g1 g2)) = 1.
@@ -77,3 +78,36 @@ Print Assumptions C16_random_clifford_injective.
 Theorem C16_random_clifford_onto_the_symplectic_tables : forall n rows, (1 <= n)%nat -> sym_rows n n rows -> exists p, draw_ok n p /\ random_clifford_from n p = rows.
 Proof. exact random_clifford_surjective. Qed.
 Print Assumptions C16_random_clifford_onto_the_symplectic_tables.
+
+(* RANDOM PAULI MAPS (random_pauli_map: an accepted one-qubit pair per qubit, placed on that qubit, 2N random signs), for EVERY N:
+   the table obeys the canonical commutation relations, with any signs from {0,2} it is a valid Clifford map, its states are valid for every rank;
+   it IS the tensor product of the drawn one-qubit maps; draws -> tables is injective and onto the block-diagonal symplectic tables, and a qubit has exactly 6 accepted
+   pairs (the 6 one-qubit Cliffords modulo signs): independent uniform accepted pairs are independent uniform one-qubit Cliffords -- a uniform product *)
+Theorem C16_random_pauli_symplectic_all_N : forall pairs i j, Forall pair1_ok pairs -> (i < 2 * length pairs)%nat -> (j < 2 * length pairs)%nat ->
+  acq (nth i (random_pauli_from pairs) []) (nth j (random_pauli_from pairs) []) = expected_acq i j.
+Proof. exact random_pauli_symplectic. Qed.
+Print Assumptions C16_random_pauli_symplectic_all_N.
+Theorem C16_random_pauli_map_valid : forall pairs phases, Forall pair1_ok pairs -> length phases = (2 * length pairs)%nat -> Forall (fun p => p = 0 \/ p = 2) phases ->
+  valid_map (length pairs) (combine (random_pauli_from pairs) phases).
+Proof. exact random_pauli_map_valid. Qed.
+Print Assumptions C16_random_pauli_map_valid.
+Theorem C16_random_pauli_state_valid : forall pairs phases r, Forall pair1_ok pairs -> length phases = (2 * length pairs)%nat -> Forall (fun p => p = 0 \/ p = 2) phases -> (r <= length pairs)%nat ->
+  tableau_ok (length pairs) (to_state (combine (random_pauli_from pairs) phases) r).
+Proof. exact random_pauli_state_valid. Qed.
+Print Assumptions C16_random_pauli_state_valid.
+Theorem C16_random_pauli_is_the_tensor_product : forall pairs i a b, nth_error pairs i = Some (a, b) -> Forall pair1_ok pairs ->
+  nth (2 * i) (random_pauli_from pairs) [] = repeat I_site i ++ a ++ repeat I_site (length pairs - i - 1) /\
+  nth (2 * i + 1) (random_pauli_from pairs) [] = repeat I_site i ++ b ++ repeat I_site (length pairs - i - 1).
+Proof. exact random_pauli_block. Qed.
+Print Assumptions C16_random_pauli_is_the_tensor_product.
+Theorem C16_random_pauli_draws_to_tables_injective : forall p q, Forall pair1_ok p -> Forall pair1_ok q -> random_pauli_from p = random_pauli_from q -> p = q.
+Proof. exact random_pauli_injective. Qed.
+Print Assumptions C16_random_pauli_draws_to_tables_injective.
+Theorem C16_random_pauli_onto_the_product_tables : forall n rows, length rows = (2 * n)%nat ->
+  (forall i, (i < n)%nat -> exists a b, pair1_ok (a, b) /\ nth (2 * i) rows [] = repeat I_site i ++ a ++ repeat I_site (n - i - 1) /\ nth (2 * i + 1) rows [] = repeat I_site i ++ b ++ repeat I_site (n - i - 1)) ->
+  exists pairs, Forall pair1_ok pairs /\ length pairs = n /\ random_pauli_from pairs = rows.
+Proof. exact random_pauli_onto_block_tables. Qed.
+Print Assumptions C16_random_pauli_onto_the_product_tables.
+Theorem C16_six_one_qubit_pairs : length (filter (fun p : pstr * pstr => Z.eqb (acq (fst p) (snd p)) 1) (list_prod (all_strs 1) (all_strs 1))) = 6%nat.
+Proof. exact one_qubit_pairs_count. Qed.
+Print Assumptions C16_six_one_qubit_pairs.
